@@ -1,7 +1,7 @@
 
 // ---------------------------------------------------------------------------------------------
 // verif_cex: small-scope exhaustive differential harnesses for src/blocks.rs
-// units: B1 B2 B3 B4 V5 V9          (see /verif/cex/README.md, /verif/cex/MAP.json)
+// units: B1 B2 B3 B4 V5 V9 B5 B6 B7 L1 PCi         (see /verif/cex/README.md, /verif/cex/MAP.json)
 // This text is appended verbatim to a scratch copy of src/blocks.rs.
 // ---------------------------------------------------------------------------------------------
 #[cfg(test)]
@@ -533,5 +533,597 @@ mod verif_cex {
             }
         }
         cex_none("V9", cases, "severity attribute absent, every upper/lower-case spelling of error/warning/info/hint, 25 near misses; with and without unrelated attributes");
+    }
+
+    // =========================================================================================
+    // B5 B6 B7 L1 PCi
+    // =========================================================================================
+
+    use std::cell::RefCell;
+    use std::collections::HashSet;
+    use std::rc::Rc;
+
+    /// FileSystem test double: files in a fixed walk order, a set of files that exist but are
+    /// not walked (hidden / git-ignored), and a log of every read.
+    struct WorldFs {
+        walk_order: Vec<String>,
+        contents: HashMap<String, String>,
+        reads: RefCell<Vec<String>>,
+    }
+
+    impl FileSystem for WorldFs {
+        fn read_to_string(&self, path: &Path) -> anyhow::Result<String> {
+            let key = path.display().to_string();
+            self.reads.borrow_mut().push(key.clone());
+            self.contents.get(&key).cloned().ok_or_else(|| anyhow!("no such file {key}"))
+        }
+
+        fn walk(&self) -> impl Iterator<Item = anyhow::Result<PathBuf>> {
+            self.walk_order.iter().map(|p| Ok(PathBuf::from(p)))
+        }
+    }
+
+    /// PathChecker test double: explicit allow-set and ignore-set.
+    struct SetChecker {
+        allow: HashSet<String>,
+        ignore: HashSet<String>,
+    }
+
+    impl PathChecker for SetChecker {
+        fn should_allow(&self, path: &Path) -> bool {
+            self.allow.contains(&path.display().to_string())
+        }
+
+        fn should_ignore(&self, path: &Path) -> bool {
+            self.ignore.contains(&path.display().to_string())
+        }
+    }
+
+    fn python_only_parsers(all: &HashMap<OsString, LanguageParser>) -> HashMap<OsString, LanguageParser> {
+        HashMap::from([(OsString::from("py"), Rc::clone(&all[&OsString::from("py")]))])
+    }
+
+    // line 1 tag a, 2 content a, 3 end a, 4 outside, 5 tag b, 6 content b, 7 end b
+    const TWO_BLOCKS: &str = "# <block name=\"a\">\nx = 1\n# </block>\ny = 2\n# <block name=\"b\">\nz = 3\n# </block>\n";
+    const NO_BLOCKS: &str = "x = 1\ny = 2\n# just a comment\nz = 3\n";
+    const UNBALANCED: &str = "# <block name=\"a\">\nx = 1\n# </block>\ny = 2\n# <block name=\"never-closed\">\nz = 3\n";
+
+    #[derive(Clone, Copy, Debug, PartialEq)]
+    enum Content {
+        None,
+        Two,
+        Unbalanced,
+    }
+
+    /// Whole-line changes used in the worlds: on content line 2 (block a), 6 (block b), 4 (no block).
+    const DIFFS: [Option<&[usize]>; 4] = [None, Some(&[2]), Some(&[4]), Some(&[2, 6])];
+
+    #[derive(Clone, Copy, Debug)]
+    struct WFile {
+        name: &'static str,
+        supported: bool,
+        content: Content,
+        allowed: bool,
+        ignored: bool,
+        diff: usize,
+        walked: bool,
+    }
+
+    fn wfile_options(name_supported: &'static str, name_unsupported: &'static str) -> Vec<WFile> {
+        let mut v = Vec::new();
+        for (name, supported) in [(name_supported, true), (name_unsupported, false)] {
+            for content in [Content::None, Content::Two, Content::Unbalanced] {
+                for allowed in [false, true] {
+                    for ignored in [false, true] {
+                        for diff in 0..DIFFS.len() {
+                            for walked in [false, true] {
+                                v.push(WFile { name, supported, content, allowed, ignored, diff, walked });
+                            }
+                        }
+                    }
+                }
+            }
+        }
+        v
+    }
+
+    /// Expected entry of one file: None = absent, Some(list of (block name, is_content_modified)).
+    /// `Err(())` = the run must fail (an examined file has unbalanced tags, C12).
+    fn b7_expect(f: &WFile, scan: bool) -> Result<Option<Vec<(&'static str, bool)>>, ()> {
+        let lines: &[usize] = DIFFS[f.diff].unwrap_or(&[]);
+        let in_diff = DIFFS[f.diff].is_some();
+        let taken_by_walk = scan && f.walked && f.allowed && !f.ignored;
+        let through_diff = !taken_by_walk && in_diff && !f.ignored;
+        if !(taken_by_walk || through_diff) || !f.supported {
+            return Ok(None); // out of scope, or no grammar for this name: never examined
+        }
+        match f.content {
+            Content::Unbalanced => Err(()),
+            Content::None => Ok(None),
+            Content::Two => {
+                let (a, b) = (lines.contains(&2), lines.contains(&6));
+                let all = vec![("a", a), ("b", b)];
+                let listed: Vec<(&'static str, bool)> = if taken_by_walk { all } else { all.into_iter().filter(|(_, m)| *m).collect() };
+                Ok(if listed.is_empty() { None } else { Some(listed) })
+            }
+        }
+    }
+
+    fn b7_run(
+        py: &HashMap<OsString, LanguageParser>,
+        files: &[WFile],
+        walk_order: &[usize],
+        scan: bool,
+        cases: &mut u64,
+    ) {
+        let text_of = |c: Content| match c {
+            Content::None => NO_BLOCKS,
+            Content::Two => TWO_BLOCKS,
+            Content::Unbalanced => UNBALANCED,
+        };
+        let fs = WorldFs {
+            walk_order: walk_order.iter().filter(|i| files[**i].walked).map(|i| files[*i].name.to_string()).collect(),
+            contents: files.iter().map(|f| (f.name.to_string(), text_of(f.content).to_string())).collect(),
+            reads: RefCell::new(Vec::new()),
+        };
+        let checker = SetChecker {
+            allow: files.iter().filter(|f| f.allowed).map(|f| f.name.to_string()).collect(),
+            ignore: files.iter().filter(|f| f.ignored).map(|f| f.name.to_string()).collect(),
+        };
+        let line_changes: HashMap<PathBuf, Vec<LineChange>> = files
+            .iter()
+            .filter_map(|f| DIFFS[f.diff].map(|ls| (PathBuf::from(f.name), ls.iter().map(|l| LineChange { line: *l, ranges: None }).collect())))
+            .collect();
+        let observed = parse_blocks(line_changes, scan, &fs, &checker, py.clone(), HashMap::new());
+        *cases += 1;
+        // ---- oracle ----
+        let mut expected: Result<Vec<(String, Vec<(&'static str, bool)>)>, ()> = Ok(Vec::new());
+        for f in files {
+            match b7_expect(f, scan) {
+                Err(()) => expected = Err(()),
+                Ok(Some(list)) => {
+                    if let Ok(v) = expected.as_mut() {
+                        v.push((f.name.to_string(), list));
+                    }
+                }
+                Ok(None) => {}
+            }
+        }
+        if let Ok(v) = expected.as_mut() {
+            v.sort();
+        }
+        let observed_flat: Result<Vec<(String, Vec<(String, bool)>)>, String> = match &observed {
+            Err(e) => Err(format!("{e:#}")),
+            Ok(m) => {
+                let mut v: Vec<(String, Vec<(String, bool)>)> = m
+                    .iter()
+                    .map(|(k, fb)| (k.display().to_string(), fb.blocks_with_context.iter().map(|b| (b.block.name_display().to_string(), b.is_content_modified)).collect()))
+                    .collect();
+                v.sort();
+                Ok(v)
+            }
+        };
+        let same = match (&expected, &observed_flat) {
+            (Err(()), Err(_)) => true,
+            (Ok(e), Ok(o)) => {
+                e.len() == o.len()
+                    && e.iter().zip(o).all(|((ef, el), (of, ol))| ef == of && el.len() == ol.len() && el.iter().zip(ol).all(|((en, em), (on, om))| en == on && em == om))
+            }
+            _ => false,
+        };
+        // file contents are handed through unchanged
+        let content_ok = observed.as_ref().map_or(true, |m| m.iter().all(|(k, fb)| fs.contents.get(&k.display().to_string()) == Some(&fb.file_content)));
+        if !same || !content_ok {
+            cex_fail(
+                "B7",
+                "parse_blocks: keys = {walked & allowed & not ignored & has blocks: all blocks, flags from the diff} + {diff files not taken by the walk & not ignored & a touched block: touched blocks only}; ignore wins; files without a grammar are never examined; an examined file with unbalanced tags fails the run",
+                json!({
+                    "should_scan_files": scan,
+                    "walk_order": fs.walk_order,
+                    "files": files.iter().map(|f| json!({
+                        "path": f.name, "file_text": text_of(f.content), "in_allow_set": f.allowed, "in_ignore_set": f.ignored,
+                        "returned_by_walk": f.walked, "whole_line_changes_in_diff": DIFFS[f.diff],
+                    })).collect::<Vec<_>>(),
+                }),
+                match &expected { Err(()) => json!({"error": "any"}), Ok(v) => json!(v.iter().map(|(f, l)| json!({"file": f, "blocks": l.iter().map(|(n, m)| json!({"name": n, "is_content_modified": m})).collect::<Vec<_>>()})).collect::<Vec<_>>()) },
+                match &observed_flat { Err(e) => json!({"error": e}), Ok(v) => json!(v.iter().map(|(f, l)| json!({"file": f, "blocks": l.iter().map(|(n, m)| json!({"name": n, "is_content_modified": m})).collect::<Vec<_>>()})).collect::<Vec<_>>()) },
+            );
+        }
+    }
+
+    #[test]
+    fn cex_B7() {
+        let all = crate::language_parsers::language_parsers().unwrap();
+        let py = python_only_parsers(&all);
+        let mut cases = 0u64;
+        let first = wfile_options("src/one.py", "src/one.txt");
+        let second = wfile_options("two.py", "notes/two.unknown");
+        // one file
+        for f in &first {
+            for scan in [false, true] {
+                b7_run(&py, &[*f], &[0], scan, &mut cases);
+            }
+        }
+        // two files: every pair of options without unbalanced content, both scan modes, walk order alternating;
+        // pairs with an unbalanced file: the partner is a healthy supported file in the diff.
+        let mut flip = 0usize;
+        for f in &first {
+            for g in &second {
+                if f.content == Content::Unbalanced || g.content == Content::Unbalanced {
+                    continue;
+                }
+                for scan in [false, true] {
+                    flip += 1;
+                    let order: [usize; 2] = if flip % 2 == 0 { [0, 1] } else { [1, 0] };
+                    b7_run(&py, &[*f, *g], &order, scan, &mut cases);
+                }
+            }
+        }
+        for f in first.iter().filter(|f| f.content == Content::Unbalanced) {
+            for g in second.iter().filter(|g| g.content == Content::Two && g.supported) {
+                for scan in [false, true] {
+                    flip += 1;
+                    let order: [usize; 2] = if flip % 2 == 0 { [0, 1] } else { [1, 0] };
+                    b7_run(&py, &[*f, *g], &order, scan, &mut cases);
+                }
+            }
+        }
+        // three files, random (seeded)
+        let third = wfile_options("deep/dir/three.py", "three");
+        let mut x: u64 = std::env::var("VERIF_SEED").ok().and_then(|s| s.parse().ok()).unwrap_or(1u64).wrapping_mul(0x9E3779B97F4A7C15) | 1;
+        let mut next = |n: usize| {
+            x = x.wrapping_mul(6364136223846793005).wrapping_add(1442695040888963407);
+            ((x >> 33) as usize) % n
+        };
+        for _ in 0..20000 {
+            let files = [first[next(first.len())], second[next(second.len())], third[next(third.len())]];
+            let mut order = [0usize, 1, 2];
+            let (i, j) = (next(3), next(3));
+            order.swap(i, j);
+            b7_run(&py, &files, &order, next(2) == 0, &mut cases);
+        }
+        cex_none(
+            "B7",
+            cases,
+            "worlds of 1 file (all 192 option combinations), 2 files (all pairs of {supported/unsupported name} x {no blocks, two blocks} x {allowed} x {ignored} x {not in diff, diff touches block a, diff touches no block, diff touches both} x {walked or not}; plus pairs with an unbalanced file), 20000 random 3-file worlds; should_scan_files in {false,true}; walk order permuted; own FileSystem/PathChecker doubles",
+        );
+    }
+
+    #[test]
+    fn cex_B5() {
+        let all = crate::language_parsers::language_parsers().unwrap();
+        let mut cases = 0u64;
+        // (a) a name that maps to no grammar => Ok(None) WITHOUT reading the file
+        for name in ["a.txt", "noext", "a.py.bak", "dir/x.unknown", "Makefile.old", ".hidden", "py.", "a.PY"] {
+            for filter in [true, false] {
+                let fs = WorldFs { walk_order: vec![], contents: HashMap::from([(name.to_string(), UNBALANCED.to_string())]), reads: RefCell::new(vec![]) };
+                let r = parse_file(
+                    Path::new(name),
+                    &[LineChange { line: 2, ranges: None }],
+                    if filter { BlocksFilter::All } else { BlocksFilter::ModifiedOnly },
+                    &fs,
+                    &all,
+                    &HashMap::new(),
+                );
+                cases += 1;
+                let reads = fs.reads.borrow().clone();
+                if !matches!(r, Ok(None)) || !reads.is_empty() {
+                    cex_fail(
+                        "B5",
+                        "parse_file: a file whose name maps to no grammar yields Ok(None) and is never read",
+                        json!({"path": name, "file_text": UNBALANCED, "filter": if filter { "All" } else { "ModifiedOnly" }}),
+                        json!({"result": "Ok(None)", "files_read": []}),
+                        json!({"result": match &r { Ok(None) => "Ok(None)".to_string(), Ok(Some(_)) => "Ok(Some(..))".to_string(), Err(e) => format!("Err({e:#})") }, "files_read": reads}),
+                    );
+                }
+            }
+        }
+        // (b) unbalanced tags are an error, whatever the filter and the diff (C12)
+        for (text, why) in [
+            ("x = 1\n# </block>\n", "a stray end tag and no start tag at all"),
+            ("# </block>", "only an end tag"),
+            (UNBALANCED, "a start tag never closed"),
+            ("# <block>\n# </block>\n# </block>\n", "one end tag too many"),
+            ("# <block>\n", "only a start tag"),
+        ] {
+            for filter in [true, false] {
+                for changes in [vec![], vec![LineChange { line: 1, ranges: None }], vec![LineChange { line: 9, ranges: None }]] {
+                    let fs = WorldFs { walk_order: vec![], contents: HashMap::from([("f.py".to_string(), text.to_string())]), reads: RefCell::new(vec![]) };
+                    let r = parse_file(Path::new("f.py"), &changes, if filter { BlocksFilter::All } else { BlocksFilter::ModifiedOnly }, &fs, &all, &HashMap::new());
+                    cases += 1;
+                    if r.is_ok() {
+                        cex_fail(
+                            "B5",
+                            "parse_file: a file whose block tags do not balance is an error, never a silent skip",
+                            json!({"path": "f.py", "file_text": text, "defect": why, "filter": if filter { "All" } else { "ModifiedOnly" }, "changed_lines": changes.iter().map(|c| c.line).collect::<Vec<_>>()}),
+                            json!({"error": "any"}),
+                            json!(match r { Ok(None) => "Ok(None)".to_string(), Ok(Some(fb)) => format!("Ok(Some({} blocks))", fb.blocks_with_context.len()), Err(_) => unreachable!() }),
+                        );
+                    }
+                }
+            }
+        }
+        // (c) selection and flags versus the diff, on TWO_BLOCKS. Changes: whole lines 2 / 4 / 6,
+        //     and a character range inside the attributes of tag b (line 5), which touches the
+        //     tag but not the content.
+        let tag_b_line = TWO_BLOCKS.lines().nth(4).unwrap();
+        let attr = tag_b_line.find("name").unwrap();
+        let pool: Vec<(LineChange, &str)> = vec![
+            (LineChange { line: 2, ranges: None }, "a-content"),
+            (LineChange { line: 4, ranges: None }, "outside"),
+            (LineChange { line: 5, ranges: Some(vec![attr..attr + 4]) }, "b-tag"),
+            (LineChange { line: 6, ranges: None }, "b-content"),
+        ];
+        for mask in 0..16usize {
+            for filter in [true, false] {
+                let picked: Vec<&(LineChange, &str)> = pool.iter().enumerate().filter(|(i, _)| mask & (1 << i) != 0).map(|(_, p)| p).collect();
+                let changes: Vec<LineChange> = picked.iter().map(|(lc, _)| LineChange { line: lc.line, ranges: lc.ranges.clone() }).collect();
+                let has = |k: &str| picked.iter().any(|(_, n)| *n == k);
+                // (name, content modified, tag modified)
+                let truth = [("a", has("a-content"), false), ("b", has("b-content"), has("b-tag"))];
+                let expected: Vec<(String, bool, bool)> = truth
+                    .iter()
+                    .filter(|(_, c, t)| filter || *c || *t)
+                    .map(|(n, c, t)| (n.to_string(), *c, *t))
+                    .collect();
+                let fs = WorldFs { walk_order: vec![], contents: HashMap::from([("f.py".to_string(), TWO_BLOCKS.to_string())]), reads: RefCell::new(vec![]) };
+                let r = parse_file(Path::new("f.py"), &changes, if filter { BlocksFilter::All } else { BlocksFilter::ModifiedOnly }, &fs, &all, &HashMap::new());
+                cases += 1;
+                let observed: Option<Vec<(String, bool, bool)>> = match &r {
+                    Ok(Some(fb)) if fb.file_content == TWO_BLOCKS => Some(fb.blocks_with_context.iter().map(|b| (b.block.name_display().to_string(), b.is_content_modified, b._is_start_tag_modified)).collect()),
+                    _ => None,
+                };
+                if observed.as_ref() != Some(&expected) {
+                    cex_fail(
+                        "B5",
+                        "parse_file: with filter All every block is returned, with ModifiedOnly exactly the blocks whose content or start tag the diff touches; flags say which of the two was touched; the file text is handed through",
+                        json!({"path": "f.py", "file_text": TWO_BLOCKS, "filter": if filter { "All" } else { "ModifiedOnly" }, "line_changes": changes.iter().map(lc_json).collect::<Vec<_>>()}),
+                        json!(expected.iter().map(|(n, c, t)| json!({"name": n, "is_content_modified": c, "is_start_tag_modified": t})).collect::<Vec<_>>()),
+                        json!(observed.map(|o| o.iter().map(|(n, c, t)| json!({"name": n, "is_content_modified": c, "is_start_tag_modified": t})).collect::<Vec<_>>())),
+                    );
+                }
+            }
+        }
+        cex_none("B5", cases, "8 names without a grammar x 2 filters (must not be read); 5 unbalanced texts x 2 filters x 3 diffs; two-block file x all 16 subsets of {content a, outside, attributes of tag b, content b} x 2 filters");
+    }
+
+    #[test]
+    fn cex_B6() {
+        let table = crate::language_parsers::language_parsers().unwrap();
+        let remaps: Vec<Vec<(&str, &str)>> = vec![
+            vec![],
+            vec![("cxx", "cpp")],
+            vec![("phtml", "html")],
+            vec![("h", "c")],
+            vec![("rust", "rs"), ("bak", "py")],
+            vec![("Makefile", "toml"), ("mod", "rs")],
+            vec![("d.ts", "js"), ("txt", "md")],
+        ];
+        let dirs = ["", "tools/", "dir.with.dots/", "svc/a.b/", "x.py/"];
+        let bases = [
+            "x.d.ts", "go.mod", "go.sum", "go.work", "Makefile", "makefile", "x.rs.bak", "X.RS", ".x.py", "x.rs", "a.b.c.py", "x.cxx", "y.phtml",
+            "z.h", "lib.rust", "notes.txt", "x.mod", "my.go.mod", "rs", "py.", "x.", ".gitignore", "GNUmakefile", "x.tar.gz", "index.d.ts", "x.go.work",
+            "weird.Makefile", "a.mk",
+        ];
+        let mut cases = 0u64;
+        for remap in &remaps {
+            let extra: HashMap<OsString, OsString> = remap.iter().map(|(k, v)| (OsString::from(k), OsString::from(v))).collect();
+            for dir in dirs {
+                for base in bases {
+                    let path = format!("{dir}{base}");
+                    // ---- oracle (C16 / DESIGN 6 B6) ----
+                    // candidates: every `.`-suffix of the BASE NAME, shortest first, then the whole base name;
+                    // a candidate resolves through the -E mapping if it has one, else as it is.
+                    let mut candidates: Vec<&str> = base.match_indices('.').map(|(i, _)| &base[i + 1..]).collect();
+                    candidates.reverse();
+                    candidates.push(base);
+                    let mut expected_key: Option<String> = None;
+                    for c in candidates {
+                        let key = remap.iter().find(|(k, _)| *k == c).map_or(c, |(_, v)| *v);
+                        if table.contains_key(&OsString::from(key)) {
+                            expected_key = Some(key.to_string());
+                            break;
+                        }
+                    }
+                    let observed = parser_for_file_path(Path::new(&path), &table, &extra);
+                    cases += 1;
+                    let ok = match (&expected_key, observed) {
+                        (None, None) => true,
+                        (Some(k), Some(p)) => Rc::ptr_eq(p, &table[&OsString::from(k)]),
+                        _ => false,
+                    };
+                    if !ok {
+                        let observed_keys: Vec<String> = observed.map_or(vec![], |p| {
+                            let mut v: Vec<String> = table.iter().filter(|(_, q)| Rc::ptr_eq(p, q)).map(|(k, _)| k.to_string_lossy().to_string()).collect();
+                            v.sort();
+                            v
+                        });
+                        cex_fail(
+                            "B6",
+                            "parser_for_file_path: the grammar is chosen by the file's BASE NAME - the shortest registered (or -E mapped) dot-suffix, else the whole name - and a -E mapping wins over a built-in entry; None when nothing maps",
+                            json!({"path": path, "extension_mappings": remap}),
+                            json!(expected_key.map_or(json!("None"), |k| json!({"grammar_registered_as": k}))),
+                            json!(if observed.is_none() { json!("None") } else { json!({"grammar_registered_as_one_of": observed_keys}) }),
+                        );
+                    }
+                }
+            }
+        }
+        cex_none("B6", cases, "REAL language_parsers() table; 28 base names (compound suffixes, extension-less names, backups, upper case, dot files, names equal to an extension) x 5 directory prefixes (incl. dotted directories) x 7 -E mapping sets (incl. keys that are registered extensions: phtml=html, h=c, Makefile=toml); identity compared with Rc::ptr_eq");
+    }
+
+    #[test]
+    fn cex_L1() {
+        // blocks described by (start line, start column, name, modified, extra attribute)
+        let specs: [(usize, usize, Option<&str>, bool); 6] = [
+            (1, 4, Some("top"), true),
+            (3, 4, None, false),
+            (3, 40, Some("same-line-second"), true),
+            (3, 80, Some("same-line-third"), false),
+            (7, 8, Some(""), true),
+            (2, 1, Some("dup"), false),
+        ];
+        let mut cases = 0u64;
+        // every subset, in two orders (as given / reversed)
+        for mask in 0..(1usize << specs.len()) {
+            for reversed in [false, true] {
+                let mut picked: Vec<&(usize, usize, Option<&str>, bool)> = specs.iter().enumerate().filter(|(i, _)| mask & (1 << i) != 0).map(|(_, s)| s).collect();
+                if reversed {
+                    picked.reverse();
+                }
+                let blocks_with_context: Vec<BlockWithContext> = picked
+                    .iter()
+                    .map(|(line, col, name, modified)| {
+                        let mut attributes = HashMap::from([("keep-sorted".to_string(), "asc".to_string())]);
+                        if let Some(n) = name {
+                            attributes.insert("name".to_string(), n.to_string());
+                        }
+                        BlockWithContext {
+                            block: Block::new(attributes, Position::new(*line, *col)..=Position::new(*line, col + 10), 0..0, Position::new(*line, col + 14)..Position::new(line + 1, 1)),
+                            _is_start_tag_modified: false,
+                            is_content_modified: *modified,
+                        }
+                    })
+                    .collect();
+                let file_blocks = FileBlocks { file_content: String::new(), blocks_with_context };
+                let observed = file_blocks.to_serializable_report();
+                cases += 1;
+                // ---- oracle (C11 `list`, C03 "line and column of its `<`") ----
+                let mut expected: Vec<serde_json::Value> = picked
+                    .iter()
+                    .map(|(line, col, name, modified)| {
+                        let mut attrs = serde_json::Map::new();
+                        attrs.insert("keep-sorted".into(), json!("asc"));
+                        if let Some(n) = name {
+                            attrs.insert("name".into(), json!(n));
+                        }
+                        json!({"name": name.unwrap_or("(unnamed)"), "line": line, "column": col, "is_content_modified": modified, "attributes": attrs})
+                    })
+                    .collect();
+                let key = |v: &serde_json::Value| (v["line"].as_u64().unwrap_or(0), v["column"].as_u64().unwrap_or(0));
+                expected.sort_by_key(key);
+                let sorted_by_line = observed.windows(2).all(|w| w[0]["line"].as_u64() <= w[1]["line"].as_u64());
+                let mut observed_sorted = observed.clone();
+                observed_sorted.sort_by_key(key);
+                if !sorted_by_line || observed_sorted != expected {
+                    cex_fail(
+                        "L1",
+                        "to_serializable_report: exactly one listing per block (also when several blocks start on the same line) with name (or `(unnamed)`), line and column of `<`, is_content_modified and the attributes; listings sorted by line",
+                        json!({"blocks_in_input_order": picked.iter().map(|(l, c, n, m)| json!({"start_tag_line": l, "start_tag_column": c, "name": n, "is_content_modified": m})).collect::<Vec<_>>()}),
+                        json!(expected),
+                        json!(observed),
+                    );
+                }
+                // the context-level report maps each file to that file's listings
+                if mask % 7 == 3 {
+                    let ctx = crate::validators::ValidationContext::new(HashMap::from([
+                        (PathBuf::from("a/b.py"), FileBlocks { file_content: String::new(), blocks_with_context: file_blocks.blocks_with_context.clone() }),
+                        (PathBuf::from("c.rs"), FileBlocks { file_content: String::new(), blocks_with_context: vec![] }),
+                    ]));
+                    let report = ctx.to_serializable_report();
+                    cases += 1;
+                    let mut keys: Vec<String> = report.keys().map(|k| k.display().to_string()).collect();
+                    keys.sort();
+                    let mut ab = report.get(&PathBuf::from("a/b.py")).cloned().unwrap_or_default();
+                    ab.sort_by_key(key);
+                    if keys != vec!["a/b.py".to_string(), "c.rs".to_string()] || ab != expected || report.get(&PathBuf::from("c.rs")).map(|v| v.len()) != Some(0) {
+                        cex_fail(
+                            "L1",
+                            "ValidationContext::to_serializable_report: one entry per file holding that file's listings",
+                            json!({"files": ["a/b.py (blocks as listed)", "c.rs (no blocks)"], "blocks": picked.iter().map(|(l, c, n, m)| json!({"start_tag_line": l, "start_tag_column": c, "name": n, "is_content_modified": m})).collect::<Vec<_>>()}),
+                            json!({"a/b.py": expected, "c.rs": []}),
+                            json!(report.iter().map(|(k, v)| (k.display().to_string(), json!(v))).collect::<serde_json::Map<_, _>>()),
+                        );
+                    }
+                }
+            }
+        }
+        cex_none("L1", cases, "every subset of 6 blocks (three of them starting on the same line, unnamed / empty-named / named, modified or not) in two input orders; plus the per-file wrapper on every 7th subset");
+    }
+
+    #[test]
+    fn cex_PCi() {
+        fn set(patterns: &[&str]) -> GlobSet {
+            let mut b = globset::GlobSetBuilder::new();
+            for p in patterns {
+                b.add(globset::Glob::new(p).unwrap());
+            }
+            b.build().unwrap()
+        }
+        // documented glob forms: `*.ext`, `dir/**`, `**/name`, exact path
+        let pattern_sets: Vec<Vec<&str>> = vec![
+            vec![],
+            vec!["setup.py"],
+            vec!["**/setup.py"],
+            vec!["*.md"],
+            vec!["docs/**"],
+            vec!["src/**/*.rs"],
+            vec!["setup.py", "docs/**"],
+            vec!["**/generated/**"],
+            vec!["a b/x y.txt"],
+        ];
+        let paths = [
+            "setup.py", "pkg/setup.py", "setup.pyc", "xsetup.py", "README.md", "docs/x.md", "docs/sub/deep.txt", "docsx/a.md", "a/docs/b.txt", "src/main.rs",
+            "src/a/b/c.rs", "src/x.py", "tests/src/x.rs", "gen/generated/x.rs", "generated/y", "a b/x y.txt", "b", "b/b/x.py",
+        ];
+        // hand-written truth for the entries the properties talk about (C15: "exact path", "`dir/**`", "`**/name`", "`*.ext`")
+        let truth: [(&str, &str, bool); 16] = [
+            ("setup.py", "setup.py", true),
+            ("setup.py", "pkg/setup.py", false),
+            ("setup.py", "setup.pyc", false),
+            ("setup.py", "xsetup.py", false),
+            ("**/setup.py", "setup.py", true),
+            ("**/setup.py", "pkg/setup.py", true),
+            ("**/setup.py", "xsetup.py", false),
+            ("docs/**", "docs/x.md", true),
+            ("docs/**", "docs/sub/deep.txt", true),
+            ("docs/**", "docsx/a.md", false),
+            ("docs/**", "a/docs/b.txt", false),
+            ("*.md", "README.md", true),
+            ("*.md", "setup.py", false),
+            ("src/**/*.rs", "src/a/b/c.rs", true),
+            ("src/**/*.rs", "tests/src/x.rs", false),
+            ("a b/x y.txt", "a b/x y.txt", true),
+        ];
+        let mut cases = 0u64;
+        for (pattern, path, expected) in truth {
+            for as_ignore in [false, true] {
+                let checker = if as_ignore { PathCheckerImpl::new(set(&[]), set(&[pattern])) } else { PathCheckerImpl::new(set(&[pattern]), set(&[])) };
+                let observed = if as_ignore { checker.should_ignore(Path::new(path)) } else { checker.should_allow(Path::new(path)) };
+                let other = if as_ignore { checker.should_allow(Path::new(path)) } else { checker.should_ignore(Path::new(path)) };
+                cases += 1;
+                if observed != expected || other {
+                    cex_fail(
+                        "PCi",
+                        "PathCheckerImpl: a glob decides on the whole root-relative path (an exact path names one file only; `**/name` any depth; `dir/**` everything below dir); the other, empty set matches nothing",
+                        json!({"glob": pattern, "used_as": if as_ignore { "--ignore" } else { "positional glob" }, "path": path}),
+                        json!({"matches": expected, "other_set_matches": false}),
+                        json!({"matches": observed, "other_set_matches": other}),
+                    );
+                }
+            }
+        }
+        // differential against globset itself: every pair (allow set, ignore set) x every path
+        for allow in &pattern_sets {
+            for ignore in &pattern_sets {
+                let checker = PathCheckerImpl::new(set(allow), set(ignore));
+                let (ref_allow, ref_ignore) = (set(allow), set(ignore));
+                for path in paths {
+                    let expected = (ref_allow.is_match(path), ref_ignore.is_match(path));
+                    let observed = (checker.should_allow(Path::new(path)), checker.should_ignore(Path::new(path)));
+                    cases += 1;
+                    if expected != observed {
+                        cex_fail(
+                            "PCi",
+                            "PathCheckerImpl::should_allow / should_ignore must answer exactly what the positional / --ignore glob set answers for the whole path",
+                            json!({"positional_globs": allow, "ignore_globs": ignore, "path": path}),
+                            json!({"should_allow": expected.0, "should_ignore": expected.1}),
+                            json!({"should_allow": observed.0, "should_ignore": observed.1}),
+                        );
+                    }
+                }
+            }
+        }
+        cex_none("PCi", cases, "16 hand-written (glob, path, verdict) facts for the documented glob forms, each as positional glob and as --ignore glob; every pair of 9 glob sets (allow x ignore) x 18 paths compared with globset itself");
     }
 }
